@@ -100,16 +100,23 @@ struct IStreamStub
 };
 
 /* ---- the static helpers, verbatim bodies ------------------------------------------------------------------ */
-/* C linkage only so that the CBMC loop ids carry no parameter list (needed for --unwindset) */
+/* C linkage (and external, the real ones are static) so that they can carry CBMC function contracts, which are
+ * declared in contract.c: instances clear_from / patch_field prove the contracts on the real bodies, instance
+ * readLine uses the contracts at the call sites (modular: replace-call-with-contract; the bodies are compiled
+ * there as well - goto-instrument 6.11 crashes on body-less callees - but every call to them is replaced). */
 extern "C" {
-static void clear_from(char* buf, int pos)
+#ifdef INST_clear_from
+void clear_from(char* buf, int pos)
 {
 #include "clear_from.inc"
 }
-static void patch_field(char* buf, int beg, int end)
+#endif
+#ifdef INST_patch_field
+void patch_field(char* buf, int beg, int end)
 {
 #include "patch_field.inc"
 }
+#endif
 }
 
 /* ---- host: the data members of MPSInput that readLine() uses, same names and types ------------------------- */
@@ -130,6 +137,7 @@ struct MPSHost
    bool            m_is_new_format;
 };
 
+#ifdef INST_readLine
 struct H : MPSHost
 {
    bool body()
@@ -169,3 +177,4 @@ extern "C" int w_readline(int section, int lineno, int is_integer, int is_new_fo
    *lineno_out = h.m_lineno;
    return r ? 1 : 0;
 }
+#endif
